@@ -209,6 +209,7 @@ func c07Enumerate(e *Engine, res *EpisodeResult) {
 		}
 		se := NewEngine(q)
 		sr := &EpisodeResult{}
+		betweenEpisodes() // every sub-episode starts from empty pools, like an episode
 		runC07(se, sr)
 		e.Stats.Decisions += se.Stats.Decisions
 		e.Stats.Switches += se.Stats.Switches
